@@ -1,0 +1,33 @@
+//go:build verif
+
+package fan
+
+// Contracts for the `fan reset` / `fan init` commands, read by /verif/govc (comment-only file, compiled
+// only with -tags verif). The function literals in package-level initialisers are addressed by file:
+// init$reset.go$1 is the first literal in reset.go.
+
+//@ opaque func getFan
+//@   returns (fan, err)
+//@   ensures err == nil ==> fans.fanWF(fan)
+//@   modifies nothing
+//@   trusted "reads and validates the configuration and builds the fan object (fans.NewFan); does not open the database"
+
+//@ func init$reset.go$1
+//@   props C15
+//@   requires persistence.dbWF()
+//@   atcall[C15.reset] Success: !dbHas["fans"][persistence.fanId(fan)] && !dbHas["fanPwmMap"][persistence.fanId(fan)]
+//@   modifies anything
+
+//@ opaque func github.com/markusressel/fan2go/internal.InitializeObjects
+//@   modifies sensorReg, sensorFinite, curveReg
+//@   trusted "registers sensors, curves and fans from the configuration in the package-level registries; creates new objects only, does not open the database"
+
+//@ func init$init.go$1
+//@   props C15
+//@   requires persistence.dbWF()
+//@   atcall[C15.init] RunInitializationSequence: !dbHas["fans"][persistence.fanId(fan)] && !dbHas["fanPwmMap"][persistence.fanId(fan)]
+//@   modifies anything
+
+//@ extern functype "func(cmd *github.com/spf13/cobra.Command, args []string)" (cmd, args)
+//@   modifies anything
+//@   trusted "a cobra command's Run function called through the struct field (here: printing the measured curve); arbitrary effect"
